@@ -51,8 +51,11 @@ static void print_draws_bits(std::ostream& o, uint64_t seed, const Z& p, int n) 
     Integer::seeding(seed); o << " ;";
     for (int i = 0; i < n; ++i) { Z d; Z::nonzerorandom(d, p.bitsize()); o << " " << d; }
 }
-static void print_draws_below(std::ostream& o, uint64_t seed, const Z& p, int n) {
+// probable_prim_root first factors p-1 (IntFactorDom::set(Lq, e, p-1, L)), which may itself consume random numbers (Pollard /
+// Lenstra starting points) from the same global state: the factorisation is replayed from the same seed before the draws
+template<class NTD> static void print_draws_below(std::ostream& o, const NTD& NT, uint64_t seed, const Z& p, uint64_t L, int n) {
     Integer::seeding(seed); o << " ;";
+    { std::vector<Z> Lq; std::vector<uint64_t> e; Z pm(p); --pm; NT.set(Lq, e, pm, L); }
     for (int i = 0; i < n; ++i) { Z d; Z::nonzerorandom(d, p); o << " " << d; }
 }
 
@@ -107,9 +110,9 @@ int main() {
             std::vector<Z> L(a.begin() + 1, a.end()); Z phin(a[0]); phin -= 1;
             NT.prim_root_of_prime(r, L, phin, a[0]); o << r; }
         else if (op == "lowest_prim_root") { NT.lowest_prim_root(r, a[0]); o << r; }
-        else if (op == "probable_prim_root.L") { double e = -1; NT.probable_prim_root(r, e, a[0], (uint64_t)a[1]); o << r << " " << (e == 0.0 ? 0 : 1); print_draws_below(o, seed, a[0], 80); print_set(o, NT, a[0], (uint64_t)a[1]); }
-        else if (op == "probable_prim_root.default") { double e = -1; NT.probable_prim_root(r, e, a[0]); o << r << " " << (e == 0.0 ? 0 : 1); print_draws_below(o, seed, a[0], 80); print_set(o, NT, a[0], 10000000UL); }
-        else if (op == "probable_prim_root.eps") { double e = -1; NT.probable_prim_root(r, e, a[0], 1e-9); o << r << " " << ((e >= 0.0 && e < 1e-3) ? 0 : 1); print_draws_below(o, seed, a[0], 80); print_set(o, NT, a[0], 10000000UL); }
+        else if (op == "probable_prim_root.L") { double e = -1; NT.probable_prim_root(r, e, a[0], (uint64_t)a[1]); o << r << " " << (e == 0.0 ? 0 : 1); print_draws_below(o, NT, seed, a[0], (uint64_t)a[1], 80); print_set(o, NT, a[0], (uint64_t)a[1]); }
+        else if (op == "probable_prim_root.default") { double e = -1; NT.probable_prim_root(r, e, a[0]); o << r << " " << (e == 0.0 ? 0 : 1); print_draws_below(o, NT, seed, a[0], 10000000UL, 80); print_set(o, NT, a[0], 10000000UL); }
+        else if (op == "probable_prim_root.eps") { double e = -1; NT.probable_prim_root(r, e, a[0], 1e-9); o << r << " " << ((e >= 0.0 && e < 1e-3) ? 0 : 1); print_draws_below(o, NT, seed, a[0], 10000000UL, 80); print_set(o, NT, a[0], 10000000UL); }
 #ifdef C13_HAVE_PRIM_INV
         else if (op == "prim_inv") { NT.prim_inv(r, a[0]); o << r; }
 #else
